@@ -74,6 +74,10 @@ CLAIMED["C02"] = ("property-based testing (Hypothesis): type-directed generated 
          "Exploration: closed terminating programs covering every core feature and their interactions (inheritance chains in every bracketing, self/super/$, +:, visibilities, object locals, asserts, comprehensions, default/named arguments, bounded recursion), printed with varied concrete syntax; the manifested value, or the explicit-error/assert message, must equal the reference interpreter's.",
          "Trusts the reference interpreter pbt/ref/interp.py (independent of /repo, ~600 lines) and the printer; numbers reaching string coercions are small integers or k/8, shifts use literal operands, tailstrict/imports/std beyond a whitelist are excluded (documented restrictions).",
          "DESIGN.md section 5 / C02")
+CLAIMED["C09"] = ("property-based testing (Hypothesis): fault-free generated programs must load; one scoping fault of 20 kinds injected at a generated position must be rejected in the analysis phase with the right error, name and byte span",
+         "Exploration: faults are injected anywhere (dead branches, unused locals, default arguments, comprehension clauses, field-name expressions, object locals), into existing constructs or wrapped around an existing sub-expression; an independent scope walker decides where self/$/super are illegal; the printer supplies the expected byte span.",
+         "Trusts the scope walker in pbt/props/c09.py and the generator's by-construction closedness (cross-checked by the reference interpreter, which raises on unbound names); evaluation-time panics for unbound names are covered by C01/C02 (a panic is always a violation).",
+         "DESIGN.md section 5 / C09")
 NOT_YET = {}
 
 def main():
